@@ -206,7 +206,7 @@ pub fn execute(v: &Value) -> String {
         })
     }));
 
-    // "touch": every note is re-submitted with its own text before the rename, so that the rename
+    // "touch": one note is re-submitted with its own text before the rename, so that the rename
     // runs on a server whose reference index went through updates (merge-only index, tombstones)
     // and not only on a freshly started one; the library is the same, the model's answer too
     // (C04_index_no_history: the getters answer the live links of the current arena)
@@ -226,7 +226,9 @@ pub fn execute(v: &Value) -> String {
     });
     if v["touch"].as_bool() == Some(true) && touchable {
         if let Ok(srv) = server.as_mut() {
-            for (name, text) in &sorted {
+            // one note only: re-submitting every note would rebuild every index entry
+            let pick = v["touch_pick"].as_u64().unwrap_or(0) as usize % sorted.len().max(1);
+            for (name, text) in sorted.iter().skip(pick).take(1) {
                 let params = DidChangeTextDocumentParams {
                     text_document: VersionedTextDocumentIdentifier { uri: uri_of(name), version: 2 },
                     content_changes: vec![TextDocumentContentChangeEvent { range: None, range_length: None, text: text.clone() }],
@@ -342,7 +344,7 @@ pub fn generate(rng: &mut Rng, thorough: bool) -> Vec<Value> {
         }
         let ext = if rng.chance(1, 4) { ".md" } else { "" };
         let attempts = attempts_for(rng, &notes, 6);
-        out.push(json!({"ext": ext, "kind": kind, "touch": i % 2 == 1, "notes": notes.iter().map(|n| json!([n.0, n.1])).collect::<Vec<_>>(), "attempts": attempts}));
+        out.push(json!({"ext": ext, "kind": kind, "touch": i % 2 == 1, "touch_pick": i / 2, "notes": notes.iter().map(|n| json!([n.0, n.1])).collect::<Vec<_>>(), "attempts": attempts}));
     }
     out
 }
